@@ -5,15 +5,25 @@ THEOREMS = [
     "C11.cache_invariant",
     "C11.no_memo_stateless",
     "C11.query_history_independent_counterexample",
+    "C11.key_collision_stale",
 ]
 N = {"quick": 1500, "thorough": 10000}
 EXHAUSTIVE = {"quick": False, "thorough": False}
 RULE = ("cases = corpus + N histories on ONE BackwardEngine: 2..6 queries (mostly the same goal again; 1 in 8 through "
-        "query_aggregate) interleaved with assert / change / remove on the caller's facts, over generated KBs of 1..5 rules, "
-        "strategies DFS/BFS/iterative, max_depth 1..4, max_solutions 1/3, memoisation on (5/6) and off. Before every query the "
+        "query_aggregate, 1 in 7 as the NEGATED goal `NOT g`) interleaved with assert / change / remove on the caller's facts, "
+        "over generated KBs of 1..5 rules, strategies DFS/BFS/iterative, max_depth 1..4, max_solutions 1/3, memoisation on (5/6) "
+        "and off; + N/10 reconfiguration histories (set_config between two askings); + N/10 negation histories (`g` and `NOT g` "
+        "on IDENTICAL facts in both orders, 0..3 other queries in between, re-asked after a change / removal); + N/10 permutation "
+        "histories (the same query before and after the caller permutes values among the same 2..3 fact names — swap, double "
+        "toggle of opposite booleans, rotation of three, values of mixed types — the verdict depending on which name holds which "
+        "value, directly or through a rule); + N/6 large-store histories (36..80 extra facts and/or 1..5 strings of 300..900 "
+        "letters whose names sort before / between / after the fields the rules use, so that the engine's key text is far beyond "
+        "1024 bytes; half of them change only the LAST-sorting relevant fact between two askings, the other half are the random "
+        "histories on top of such a store, which sometimes grows past the limit in mid-history). Before every query the "
         "harness deep-copies the caller's facts and asks a FRESHLY BUILT engine (same rules, same configuration); observed per "
         "query: the long-lived engine's verdict, the fresh engine's verdict, whether the call was answered without searching "
-        "(stats.goals_explored == 0), and the key text (query, max_solutions, canonical facts before). Oracle: every verdict "
+        "(stats.goals_explored == 0), and the key text (query, max_solutions, canonical facts before; a 128-bit digest of it when "
+        "longer than 160 bytes). Oracle: every verdict "
         "equals the fresh engine's (needs no model); tie: the Lean cache model, run on the observed keys with the observed fresh "
         "verdicts as its abstract `answer`, must predict every (verdict, hit) pair. Non-trivial = the history contains two "
         "different verdicts.")
@@ -42,7 +52,7 @@ def classify(case, impl, model, oracle, kind):
 LEVEL_TEXT = ("Lean 4 theorem (kernel-checked, unbounded: every history of (facts, query) pairs, every search function, every key "
               "function that determines the fresh answer): query_history_independent — the k-th answer of a long-lived engine equals a "
               "fresh engine's answer on the k-th pair — from the cache invariant; counterexample theorem for the pre-fix key (query "
-              "string alone). Tied to the code by comparing every query of generated histories with a freshly built engine inside the "
+              "string alone) and key_collision_stale: ANY two (query, facts) pairs with different answers and one key give a stale second answer. Tied to the code by comparing every query of generated histories with a freshly built engine inside the "
               "harness and by running the cache model on the observed keys (hit/verdict prediction).")
 LEVEL_NOTE = ("The search is abstract in this model (C09 carries it). Trusted: Lean kernel + {propext, Classical.choice, Quot.sound}; "
               "injectivity of the rendered key; harness fresh-engine comparison; RETE-attached proof-graph cache is C17's.")
